@@ -9,7 +9,7 @@ pub(in super::super) enum DecimalMode<'a> {
 /// parses back to the same `f64`), because that is the number the caller means:
 /// the exact binary expansion of `4194304.23_f64` would be `4194304.230000001...`
 pub(super) fn f64_to_decimal(v: f64) -> Option<rust_decimal::Decimal> {
-	v.to_string().parse().ok()
+	rust_decimal::Decimal::from_str_exact(&v.to_string()).ok()
 }
 
 pub(super) fn serialize<'r, 'c, 's, W>(
